@@ -95,6 +95,10 @@ func parseRabinString(r io.Reader, chunker string) (Splitter, error) {
 		size, err := strconv.Atoi(parts[1])
 		if err != nil {
 			return nil, err
+		} else if size/3 < 16 {
+			// NewRabin derives min = avg/3, which must not be smaller than
+			// the 16-byte window of the rabin library.
+			return nil, ErrRabinMin
 		} else if int(float32(size)*1.5) > ChunkSizeLimit { // FIXME - this will be addressed in a subsequent PR
 			return nil, ErrSizeMax
 		}
